@@ -48,13 +48,20 @@ def run(scn_wrap, loop):
     s = scn_wrap['scn']
     spec = make_spec(s['kind'])
     base = s['base']
+    ev = []
+
+    def early(j):
+        if s['endpoints'] == 'main+late':
+            doc = json.loads(json.dumps(j.generate_spec(spec, path=base), cls=specs.JSONEncoder))
+            ev.append({'ev': 'Early', 'keys': keys_of(doc, s['kind'], base)})
     if s['integ'] == 'flask':
         import flask
         from pjrpc.server.integration import flask as integ
         j = integ.JsonRPC(base, spec=spec)
         j.dispatcher.add(f1)
         j.dispatcher.add(f4)
-        if s['endpoints'] == 'main+api':
+        early(j)
+        if s['endpoints'] in ('main+api', 'main+late'):
             j.add_endpoint('/api').add(f2)
         app = flask.Flask('specendpoint')
         j.init_app(app)
@@ -71,7 +78,8 @@ def run(scn_wrap, loop):
         j = integ.Application(base, spec=spec)
         j.dispatcher.add(f1)
         j.dispatcher.add(f4)
-        if s['endpoints'] == 'main+api':
+        early(j)
+        if s['endpoints'] in ('main+api', 'main+late'):
             j.add_endpoint('/api').add(f2)
 
         async def mk():
@@ -87,7 +95,6 @@ def run(scn_wrap, loop):
             return loop.run_until_complete(go())
         direct = lambda: j.generate_spec(spec, path=base)      # noqa: E731
         closer = client
-    ev = []
     try:
         for _ in range(2):
             status, ctype, body = get()
